@@ -83,15 +83,21 @@ func checkShutdownTop(c *report.Ctx) {
 	c.Check("R-NOEFFECT", name+"/no-term-without-agents", "no SIGTERM is sent from the no-agents branch", nterm == 0, fpos(f), 1, "%d Terminate calls in shutdown()", nterm)
 	// every path reaches clearExitedChannel before returning
 	cl := an.CallsTo(f, shutT+".clearExitedChannel")
-	ok := len(cl) == 1
+	ok := len(cl) >= 1
 	if ok {
+		ordW := an.NewOrder(f, func(in ssa.Instruction) uint64 {
+			if an.IsCallTo(in, shutT+".clearExitedChannel") {
+				return 1
+			}
+			return 0
+		})
 		for _, e := range an.Exits(f) {
-			if !an.InstrDominates(cl[0], e.Ret) {
+			if must, _ := ordW.Before(e.Ret); must&1 == 0 {
 				ok = false
 			}
 		}
 	}
-	c.Check("R-ORDER", name+"/waits-for-exits", "the operation returns only after waiting for every started process to exit (or the fixed grace)", ok, fpos(f), len(cl), "clearExitedChannel dominates every return: %v", ok)
+	c.Check("R-ORDER", name+"/waits-for-exits", "the operation returns only after waiting for every started process to exit (or the fixed grace)", ok, fpos(f), len(cl), "clearExitedChannel certainly precedes every return: %v", ok)
 	// shuttingDown flag: set true first, reset by defer
 	sets := an.CallsTo(f, shutT+".setShuttingDown")
 	okFlag := len(sets) == 2
